@@ -124,6 +124,90 @@ def c10(run):
         "seeded histories of add/overwrite/remove/disable/enable/reload/location-disable with events (one location and "
         "parent/child), indexed and linear; TLC checks which rules fire for every event and the class of every refusal")
 
+def race_reports(stderr):
+    """Go race detector reports, each reduced to the unordered set of functions of the racing accesses."""
+    import re
+    acc = []
+    for rep in stderr.split("WARNING: DATA RACE")[1:]:
+        fns = re.findall(r"(?:Write|Read|Previous write|Previous read) at .*?\n\s+(\S+)\(\)", rep)
+        acc.append(" / ".join(sorted(set(f.split("/")[-1] for f in fns))) or "unparsed race report")
+    return acc
+
+def conc_rounds(run, drv, args, label, module="ConcTrace.tla", cfg="ConcTrace.cfg"):
+    """Run a concurrent driver (built with -race), then let TLC look for a linearization of every round."""
+    import subprocess
+    out = os.path.join(run.tmp, "conc-%s.ndjson" % label)
+    p = subprocess.run([drv] + args + ["-out", out], cwd=run.tmp, stdout=subprocess.PIPE, stderr=subprocess.PIPE, text=True,
+                       timeout=3000, env=dict(os.environ, GORACE="halt_on_error=0"))
+    races = race_reports(p.stderr)
+    for r in sorted(set(races)):
+        run.violation("data race: " + r, {"driver": os.path.basename(drv), "args": args, "races": races[:5], "stderr_head": p.stderr[:3000]}, stage="race")
+    if p.returncode == 3:
+        run.violation("deadlock: " + p.stdout.strip().split("\n")[-1][:200], {"driver": os.path.basename(drv), "args": args,
+                      "stdout": p.stdout[-1500:]}, stage="deadlock")
+    elif p.returncode not in (0, 66):
+        from vcheck import crash_signature
+        sig = crash_signature(p.stderr)
+        if sig is None:
+            raise Broken("concurrent driver failed (%d): %s" % (p.returncode, p.stderr[-1500:]))
+        run.violation("process crash under concurrency: " + sig, {"driver": os.path.basename(drv), "args": args, "stderr_head": p.stderr[:3000]}, stage="crash")
+        return
+    if "hooks=true" not in p.stdout:
+        run.assumptions.append("verif hook points missing from this build: plain stress only")
+    # linearizability, round by round: on a rejected round report it and go on with the rounds after it
+    lines = open(out).read().split("\n")
+    header, body = lines[0], [x for x in lines[1:] if x]
+    starts = [i for i, x in enumerate(body) if '"ev":"round"' in x] + [len(body)]
+    first = 0
+    guard = 0
+    while first < len(starts) - 1 and guard < 30:
+        guard += 1
+        part = os.path.join(run.tmp, "conc-%s-%d.ndjson" % (label, first))
+        with open(part, "w") as f:
+            f.write(header + "\n" + "\n".join(body[starts[first]:]) + "\n")
+        nrounds = len(starts) - 1 - first
+        rc, tout, dt = run.tlc(module, cfg, env={"TRACE": part}, workers=1, timeout=3000, label="conc-%s-%d" % (label, first))
+        import re
+        m = re.search(r'"CONSUMED",\s*(\d+),\s*"OF",\s*(\d+)', tout)
+        if not m:
+            raise Broken("linearizability check did not complete:\n" + tout[-2000:])
+        consumed, total = int(m.group(1)), int(m.group(2))
+        st, gen = run.tlc_counts(tout)
+        run.cov["states"] += st; run.cov["transitions"] += gen
+        if consumed >= total:
+            run.cov["traces_validated_against_impl"] += nrounds
+            run.cov["events_validated"] += len(body) - starts[first]
+            break
+        # line `consumed+1` of the part file (1-based incl. header) could not be explained: find its round
+        # TLC consumed `consumed` lines of the part file (its line 1 is the header, line 2 is body[starts[first]]),
+        # so the line it could not explain is part-file line consumed+1, i.e. body index starts[first] + consumed - 1
+        bad_line = starts[first] + consumed - 1
+        k = max(i for i in range(len(starts) - 1) if starts[i] <= bad_line)
+        rnd = body[starts[k]:starts[k + 1]]
+        hdr = json.loads(rnd[0])
+        run.violation("no sequential order explains round %s (%s state): stuck at %s" % (hdr.get("round"), hdr.get("state"),
+                      body[bad_line][:200]), {"header": json.loads(header), "round": [json.loads(x) for x in rnd]}, stage="linearizability")
+        run.cov["traces_validated_against_impl"] += k - first
+        first = k + 1
+    run.cov["stages"].append({"stage": "linearizability", "label": label, "rounds": len(starts) - 1, "races": len(races)})
+    if body:
+        run.sample({"round_of": label, "lines": [json.loads(x).get("op", json.loads(x).get("ev")) for x in body[starts[0]:starts[1]]][:14]})
+
+def c12(run):
+    q = run.tier == "quick"
+    run.model_check("EngineMC.tla", "MC_rules.cfg")
+    drv = run.build("concdrv", race=True)
+    for i in range(1 if q else 6):
+        conc_rounds(run, drv, ["-seed", str(run.seed * 100 + i), "-rounds", "400" if q else "1500", "-clients", "4", "-ops", "3"], "c12-%d" % i)
+    run.assumptions += TRUSTED[:3] + ["call and return lines are ordered by a sequence number taken under one lock (real-time order)",
+                                      "Go race detector on the very runs that are validated; verif hook points turn storage writes inside "
+                                      "the state's critical sections into scheduling points",
+                                      "rounds of 2-4 clients x 3 operations on 2 shared ids (the linearization search stays small)"]
+    return run.finish(rule="rounds of concurrent AddFact/RemFact/GetFact/SearchFacts/AddRule/RemRule/EnableRule/ProcessEvent by 2-4 clients on "
+                           "two shared ids of one location (indexed / linear alternating), after a short random sequential prefix; TLC "
+                           "searches a linearization of every round against Engine!Step (results of every call and the final memory and "
+                           "storage contents); race reports, deadlocks (watchdog) and crashes of the same runs are violations")
+
 def c13(run):
     q = run.tier == "quick"
     import subprocess
@@ -360,7 +444,7 @@ def c03(run):
                            "indexed and linear state, through Location.Query; TLC compares the returned bindings as a BAG with Query!Eval; "
                            "states/transitions: QueryMC (algebraic laws of Eval on all trees up to depth 1/2 x all fact subsets)")
 
-CHECKS = {"C13": c13, "C15": c15, "C06": c06, "C14": c14, "C17": c17, "C18": c18, "C01": c01, "C03": c03, "C04": c04, "C05": c05, "C02": c02, "C07": c07, "C08": c08, "C09": c09, "C10": c10, "C19": c19, "C20": c20}
+CHECKS = {"C12": c12, "C13": c13, "C15": c15, "C06": c06, "C14": c14, "C17": c17, "C18": c18, "C01": c01, "C03": c03, "C04": c04, "C05": c05, "C02": c02, "C07": c07, "C08": c08, "C09": c09, "C10": c10, "C19": c19, "C20": c20}
 
 def replay(run, path):
     rejected, out = run.validate("EngineTrace.tla", "EngineTrace.cfg", path, "replay")
